@@ -228,6 +228,14 @@ def run_case(case):
                 res = lib(lambda: a.newaxis("n", values=v, pos=pos), what=what, sig={"op": "newaxis"})
                 # labels given to newaxis explicitly must be the labels of the new axis, also when there is just one
                 expect(res, src, pd, labels[:p] + [list(vals_new)] + labels[p:], ["n"], what, {"op": "newaxis"}, placeholder_ok=False)
+            donor = da.Axis(core.label_array(vals_new), "donor_")
+            what = "newaxis('n', values=Axis named 'donor_' %s, pos=%d) dims=%s labels=%s" % (vals_new, pos, dims, labels)
+            res = lib(lambda: a.newaxis("n", values=donor, pos=pos), what=what, sig={"op": "newaxis"})
+            # (which of the two names the new dimension gets is left open - the library takes the Axis' own; the donor itself must stay what it was)
+            nm_ = res.dims[p] if hasattr(res, "dims") and len(res.dims) == len(pd) else None
+            check(nm_ in ("n", "donor_"), "dims", {"what": what, "got": core.brief(res)}, {"op": "newaxis"})
+            expect(res, src, dims[:p] + [nm_] + dims[p:], labels[:p] + [list(vals_new)] + labels[p:], [nm_], what, {"op": "newaxis"}, placeholder_ok=False)
+            check(donor.name == "donor_" and core.same_labels(donor.values, vals_new), "argument-modified", {"what": what, "donor_name_now": donor.name}, {"op": "newaxis"})
             done("newaxis:values", [pos], True)
     guard("newaxis", t_newaxis)
 
@@ -267,6 +275,18 @@ def run_case(case):
                 res = lib(f, what=what, sig={"op": "repeat"})
                 pl = [exp_l if x == d else lab_of[x] for x in dims]
                 expect(res, src, dims, pl, [d], what, {"op": "repeat"})
+            # an Axis borrowed from another array (another name): the labels count, the dimension keeps its name, and the donor stays what it was
+            donor = da.Axis(core.label_array(newl), "donor_")
+            donor.attrs["units"] = "donor-units"
+            what = "repeat(values=Axis named 'donor_' %s, axis=%s) dims=%s labels=%s" % (newl, d, dims, labels)
+            res = lib(lambda: a.repeat(donor, axis=d), what=what, sig={"op": "repeat"})
+            # (the repeated dimension ends up with the Axis' own name or keeps its own: left open, see DESIGN 10.2)
+            nm_ = res.dims[i] if hasattr(res, "dims") and len(res.dims) == nd else None
+            check(nm_ in (d, "donor_"), "dims", {"what": what, "got": core.brief(res)}, {"op": "repeat"})
+            src_r = core.L([nm_ if x == d else x for x in src.dims], src.labels, src.cells) if nm_ != d else src
+            expect(res, src_r, [nm_ if x == d else x for x in dims], [list(newl) if x == d else lab_of[x] for x in dims], [nm_], what, {"op": "repeat"})
+            check(donor.name == "donor_" and core.same_labels(donor.values, newl) and dict(donor.attrs) == {"units": "donor-units"}, "argument-modified",
+                  {"what": what, "donor_name_now": donor.name, "donor_labels_now": core.jsonable(donor.values)}, {"op": "repeat"})
             done("repeat", [d], True)
         if not singles and nd:
             core.must_raise(lambda: a.repeat(2, axis=0), (ValueError,), "repeat on a non-singleton axis", sig={"op": "repeat"})
